@@ -33,7 +33,7 @@ class Rename:
             self.old_instance, self.old_pyname = evaluate.eval_location2(
                 this_pymodule, offset
             )
-            if self.old_pyname is None:
+            if self.old_pyname is None or not self.old_name:
                 raise exceptions.RefactoringError(
                     "Rename refactoring should be performed"
                     " on resolvable python identifiers."
